@@ -37,6 +37,23 @@ def schedules(max_len=120):
     return st.one_of(walk, pct, pre)
 
 
+def dense_schedules():
+    """Schedules for dense-line cases (many more real choices per run):
+    PCT with later change points, or up to six preemptions placed anywhere
+    among the first few thousand choices."""
+    pct = st.builds(
+        lambda p, c: {'mode': 'pct', 'prios': p, 'changes': sorted(set(c))},
+        st.lists(st.integers(0, 30), min_size=1, max_size=10),
+        st.lists(st.integers(1, 3000), max_size=6))
+    pre = st.builds(
+        lambda a: {'mode': 'preempt', 'at': [list(x) for x in a]},
+        st.lists(st.tuples(st.one_of(st.integers(0, 400),
+                                     st.integers(0, 3000)),
+                           st.integers(1, 3)),
+                 min_size=1, max_size=6))
+    return st.one_of(pct, pre)
+
+
 def configs(profile):
     small = st.integers(1, 4)
     one_biased = st.sampled_from([1, 1, 1, 2, 2, 3, 4])
@@ -299,11 +316,17 @@ def e2e_cases(draw, profile):
         'sched': draw(schedules()),
         'hash_salt': draw(st.integers(0, 5)),
     }
-    if profile.get('lines') and draw(st.integers(0, 3)) == 0:
+    lines_mode = draw(st.integers(0, 3)) if profile.get('lines') else 3
+    if lines_mode == 0:
         # line-granularity preemption: the n-th executed source line of
         # s3transfer/*.py becomes a (forced) scheduling point
         case['lines'] = draw(st.lists(st.integers(0, 2500), min_size=1,
                                       max_size=3))
+    elif lines_mode == 1:
+        # dense mode: every line inside the lock-owning classes is an
+        # ordinary scheduling point; the schedule gets more choices to spend
+        case['dense'] = True
+        case['sched'] = draw(dense_schedules())
     if profile.get('shared_extra') and draw(st.booleans()):
         case['shared_extra'] = True
     if profile.get('agg'):
@@ -403,6 +426,9 @@ def pp_cases(draw):
     k = draw(st.one_of(st.none(), st.none(), st.integers(0, 200)))
     if k is not None:
         case['kbi'] = {'at': k}
+    ioc = draw(st.sampled_from([None, None, 1, 2, 3, 5]))
+    if ioc is not None:
+        case['io_chunk'] = ioc
     return case
 
 
@@ -444,8 +470,52 @@ def crt_cases(draw):
 
 
 # ---------------------------------------------------------------- legacy
+LEGACY_READ = 16 * 1024     # MultipartDownloader reads 16 KiB at a time
+
+
+@st.composite
+def legacy_buffer_scale_cases(draw, ops=('upload', 'download')):
+    """Legacy transfers whose parts are larger than the hard-coded 16 KiB /
+    8 KiB read sizes of the legacy classes, with network reads that are
+    capped at sizes around those constants."""
+    op = draw(st.sampled_from(list(ops)))
+    chunk = draw(st.one_of(st.integers(LEGACY_READ + 1, 70000),
+                           st.sampled_from([2 * LEGACY_READ, 3 * LEGACY_READ,
+                                            LEGACY_READ + 1, 40000])))
+    nparts = draw(st.integers(1, 4))
+    size = draw(st.one_of(
+        st.integers(max(1, (nparts - 1) * chunk + 1), nparts * chunk),
+        st.sampled_from([chunk, 2 * chunk, 2 * chunk + 1, 3 * chunk - 1])))
+    thr = draw(st.sampled_from([1, size, size + 1]))
+    caps = st.sampled_from([0, 1, 100, 4096, 5000, 8191, 8192, 8193, 10000,
+                            12345, LEGACY_READ - 1, LEGACY_READ,
+                            LEGACY_READ + 1, 30000])
+    case = {'kind': 'legacy', 'op': op, 'size': size, 'threshold': thr,
+            'chunk': chunk, 'conc': draw(st.integers(1, 3)),
+            'attempts': draw(st.integers(1, 3)),
+            'preexist': draw(st.sampled_from([None, None, 7])),
+            'extra': {}, 'faults': [], 'scripts': {}, 'buffer_scale': True}
+    if op == 'upload':
+        case['scripts']['body'] = draw(st.lists(st.fixed_dictionaries({
+            'preflight': st.booleans(), 'sign': st.booleans(),
+            'blocks': st.lists(caps.filter(lambda k: k > 0), max_size=3),
+            'rewinds': st.lists(st.integers(0, 70000), max_size=2),
+            'chunked': st.just(0)}), max_size=3))
+    else:
+        case['scripts']['stream'] = draw(st.lists(st.fixed_dictionaries({
+            'short': st.lists(caps, min_size=1, max_size=3),
+            'fault_at': st.one_of(st.none(), st.none(),
+                                  st.integers(0, 2 * chunk)),
+            'fault': st.sampled_from(['retryable:0', 'retryable:1',
+                                      'retryable:3', 'retryable:4'])}),
+            max_size=4))
+    return case
+
+
 @st.composite
 def legacy_cases(draw, ops=('upload', 'download'), with_faults=False):
+    if not with_faults and draw(st.integers(0, 5)) == 0:
+        return draw(legacy_buffer_scale_cases(ops))
     thr = draw(st.integers(1, 40))
     chunk = draw(st.integers(1, 16))
     op = draw(st.sampled_from(list(ops)))
@@ -543,17 +613,7 @@ def real_scale_cases(draw, types=('upload', 'download', 'copy'),
             'sched': draw(schedules(30))}
 
 
-@st.composite
-def huge_copy_cases(draw):
-    """Real-scale, data-less multipart copies up to 5 TiB (planning only)."""
-    GiB = 1024 ** 3
-    TiB = 1024 ** 4
-    chunk = draw(st.sampled_from([5 * MiB, 8 * MiB, 8 * MiB + 1, 64 * MiB,
-                                  5 * GiB, 6 * GiB]))
-    size = draw(st.sampled_from([
-        10000 * 8 * MiB - 1, 10000 * 8 * MiB, 10000 * 8 * MiB + 1,
-        10000 * 16 * MiB + 9999, 5 * TiB - 1, 5 * TiB, 1 * TiB + 12345,
-        3 * 5 * GiB + 1, 10001 * 5 * MiB]))
+def _huge_copy_case(chunk, size):
     cfg = {'multipart_threshold': 8 * MiB, 'multipart_chunksize': chunk,
            'io_chunksize': 256 * 1024, 'max_request_concurrency': 2,
            'max_submission_concurrency': 1, 'max_request_queue_size': 1000,
@@ -568,3 +628,37 @@ def huge_copy_cases(draw):
             'max_steps': 3000000, 'kind': 'e2e',
             'end': {'how': 'shutdown', 'wait_results': True},
             'sched': {'mode': 'walk', 'choices': []}}
+
+
+GiB = 1024 ** 3
+TiB = 1024 ** 4
+HUGE_CHUNKS = [1 * MiB, 5 * MiB, 8 * MiB, 8 * MiB + 1, 64 * MiB, 5 * GiB,
+               5 * GiB + 1, 6 * GiB, 8 * GiB]
+HUGE_SIZES = [10000 * 8 * MiB - 1, 10000 * 8 * MiB, 10000 * 8 * MiB + 1,
+              10000 * 16 * MiB + 9999, 5 * TiB - 1, 5 * TiB, 1 * TiB + 12345,
+              3 * 5 * GiB + 1, 10001 * 5 * MiB, 5 * GiB + 1, 20 * GiB,
+              2 ** 31 + 1, 2 ** 32 + 1]
+
+
+def huge_copy_matrix():
+    """Real-scale, data-less multipart copies up to 5 TiB (planning only):
+    the full product of boundary chunk sizes and boundary object sizes."""
+    return [_huge_copy_case(c, s) for c in HUGE_CHUNKS for s in HUGE_SIZES]
+
+
+@st.composite
+def huge_copy_cases(draw):
+    """Free draws (thorough tier): any chunk size from 1 MiB to 8 GiB, any
+    object size from 8 MiB to 5 TiB, biased to the boundaries."""
+    chunk = draw(st.one_of(
+        st.sampled_from(HUGE_CHUNKS),
+        st.integers(1 * MiB, 8 * GiB),
+        st.builds(lambda b, d: max(1, b + d), st.sampled_from(HUGE_CHUNKS),
+                  st.integers(-3, 3))))
+    size = draw(st.one_of(
+        st.sampled_from(HUGE_SIZES),
+        st.integers(8 * MiB, 5 * TiB),
+        st.builds(lambda k, c, d: min(5 * TiB, max(8 * MiB, k * c + d)),
+                  st.sampled_from([1, 2, 3, 9999, 10000, 10001]),
+                  st.sampled_from(HUGE_CHUNKS), st.integers(-2, 2))))
+    return _huge_copy_case(chunk, size)
